@@ -410,6 +410,11 @@ def gen_c15(tier, rng):
         ida = rng.choice(['default', hx(b'alice123@qq.com')])
         idb = rng.choice(['default', hx(b'bob456@qq.com')])
         yield ('honest-klen', 'sm2_kex %s %s %s %s %d %s %s -' % (H(dA), H(dB), ida, idb, klen, good_k(rng), good_k(rng)), None)
+    for ida in ids(rng, tier)[1:]:
+        if len(ida) > 200:
+            continue
+        idb = rng.choice(ids(rng, tier)[5:9])
+        yield ('id-classes', 'sm2_kex %s %s %s %s 16 %s %s -' % (H(rscalar(rng, 1, N - 1)), H(rscalar(rng, 1, N - 1)), ida, idb, good_k(rng), good_k(rng)), None)
     for t in tampers:
         for _ in range(3 if tier == 'thorough' else 1):
             dA, dB = rscalar(rng, 1, N - 1), rscalar(rng, 1, N - 1)
